@@ -8,6 +8,7 @@ import NutsModel.C05.Today
 import NutsModel.C05.Threads
 import NutsProofs.Lemmas.C05Forms
 import NutsProofs.Lemmas.C05Vci
+import NutsModel.C05.Vci
 
 namespace Nuts.C05
 
@@ -311,5 +312,28 @@ theorem handleForm_eq_threads (cfg : Cfg) (hg : cfg.gad = .locked) (hm : ∀ m, 
     unfold soloMark pifSeq
     simp only [MarkReq.key, jtiKey]
     cases hgt : stGet cfg.expInclusive st now ⟨.mark .jti, r.jti⟩ <;> simp
+
+/-! ### the OpenID4VCI token endpoint (vcr/issuer HandleAccessTokenRequest) as a thread -/
+
+theorem handlePreAuth_eq_solo (cfg : Cfg) (ttl : Kind → Nat) (now : Nat) (s : VciSt) (issuer code tok cn : String) :
+    (handlePreAuth ⟨cfg.expInclusive, now, ttl⟩ s issuer code tok cn).st.codes
+      = (soloPlain cfg s.codes now (preAuthReq ⟨cfg.expInclusive, now, ttl⟩ s issuer code tok cn)).2 ∧
+    ((soloPlain cfg s.codes now (preAuthReq ⟨cfg.expInclusive, now, ttl⟩ s issuer code tok cn)).1 = .ok ↔
+      (handlePreAuth ⟨cfg.expInclusive, now, ttl⟩ s issuer code tok cn).ans = .ok) ∧
+    ((soloPlain cfg s.codes now (preAuthReq ⟨cfg.expInclusive, now, ttl⟩ s issuer code tok cn)).1 = .notFound ↔
+      stGet cfg.expInclusive s.codes now (preAuthKey code) = none) := by
+  rw [handlePreAuth_codes]
+  unfold soloPlain gadSeq
+  simp only [preAuthReq, BurnReq.key, preAuthKey]
+  cases hg : stGet cfg.expInclusive s.codes now ⟨.burn .preAuth, code⟩ with
+  | none =>
+    refine ⟨rfl, ?_, by simp⟩
+    have := handlePreAuth_not_ok_of_dead ⟨cfg.expInclusive, now, ttl⟩ s issuer code tok cn hg
+    simp [this]
+  | some v =>
+    simp only [verdict, Option.getD_some]
+    refine ⟨trivial, ?_, ?_⟩
+    · by_cases h : (handlePreAuth ⟨cfg.expInclusive, now, ttl⟩ s issuer code tok cn).ans = .ok <;> simp [h]
+    · by_cases h : (handlePreAuth ⟨cfg.expInclusive, now, ttl⟩ s issuer code tok cn).ans = .ok <;> simp [h]
 
 end Nuts.C05
